@@ -10,6 +10,8 @@ Decides:
  S strictness  decision table of parse_pos_word over Position x is_strict.
  K classes     StrictPos is final, NonStrictPos is catchable (can_catch rows).
  H help        the help/version lookup goes through req_flag -> take_flag, so it cannot match a PosWord.
+ R restore         when a wrapper (optional/many/..) absorbs NonStrictPos - raised AFTER the word right of `--` was taken - it puts the
+                   pre-attempt state back, so the word stays available to the strict positionals (rows of the parse_option table, C06).
 Does not decide: interaction with completion (C14)."""
 import re
 from core import *
@@ -22,7 +24,7 @@ import consumers
 LEVEL = 'other'
 EXPLANATION = __doc__
 ASSUMPTIONS = ['split_os_argument returns None for the literal `--` (value-level, read from the source, not decided here)']
-FLOORS = {'T.tokenizer': 7, 'A.accept-sets': 8, 'S.strictness': 6, 'K.classes': 2, 'H.help': 3}
+FLOORS = {'T.tokenizer': 7, 'A.accept-sets': 8, 'S.strictness': 6, 'K.classes': 2, 'H.help': 3, 'R.restore': 5}
 
 def run(ctx):
     cfgs = ['none', 'all'] if ctx.tier == 'quick' else ['none', 'all', 'ac', 'doc']
@@ -34,6 +36,8 @@ def run(ctx):
         ctx.guard(strictness, ctx, cfg, fs)
         ctx.guard(classes, ctx, cfg, fs)
         ctx.guard(helpflag, ctx, cfg, fs)
+        import c06, c08
+        ctx.guard(c08.keep_only, ctx, lambda: c06.k3(ctx, cfg, fs, c06.k1(ctx, cfg, fs)), lambda o: o.rule == 'K3.consult' and 'NonStrictPos' in o.key, 'R.restore')
 
 def tokenizer(ctx, cfg, fs):
     b = ctx.look(fs.body('args::inner::State::construct'))
